@@ -26,6 +26,13 @@ def cases(prop, shard, nshards, seed, tier, want_models=False):
                     continue
                 if mine():
                     yield {"family": "corpus-model", "file": fn, "model": m, "ops": []}
+    for fn in ("tests/1ehz-assembly-1.cif", "tests/4WTI_1_T-P.cif", "tests/1A1T_1_B.cif", "tests/4qln.cif", "tests/1a9n.cif"):
+        for hops in ([{"op": "icodes", "seed": "h1", "frac": 0.8}], [{"op": "reverse-res"}], [{"op": "chain-order", "seed": "h2", "mode": "reverse"}],
+                     [{"op": "icodes", "seed": "h3", "frac": 0.5}, {"op": "reverse-res"}]):
+            if fn.endswith("1a9n.cif") and tier == "quick" and hops[0]["op"] != "chain-order":
+                continue
+            if mine():
+                yield {"family": "hostile-" + hops[0]["op"], "file": fn, "ops": hops}
     nvar = 200 if tier == "quick" else 4000
     for i in range(nvar):
         if not mine():
@@ -33,7 +40,7 @@ def cases(prop, shard, nshards, seed, tier, want_models=False):
         rng = random.Random(f"{seed}:{prop}:v:{i}")
         pool = [f for f in files if os.path.getsize(os.path.join(core.REPO, f)) < (700_000 if tier == "quick" else 10**9) and not f.endswith(("2HY9.cif", "6RS3.cif"))]
         fn = rng.choice(pool)
-        kind = rng.choice(["rigid", "axisperm", "jitter", "thin-res", "thin-atoms", "thin-key-atoms", "scale", "combo"])
+        kind = rng.choice(["rigid", "axisperm", "jitter", "thin-res", "thin-atoms", "thin-key-atoms", "scale", "combo", "icodes", "icodes", "reverse-res", "chain-order"])
         sd = f"{seed}:{prop}:{i}"
         if kind == "rigid":
             ops = [{"op": "rigid", "seed": sd, "trans": [rng.uniform(-500, 500) for _ in range(3)]}]
@@ -49,6 +56,12 @@ def cases(prop, shard, nshards, seed, tier, want_models=False):
             ops = [{"op": "thin-atoms", "seed": sd, "frac": 0.3, "names": ["N1", "C6", "N9", "C1'", "N3", "N7", "O2", "C4", "O2'"]}]
         elif kind == "scale":
             ops = [{"op": "scale", "f": rng.uniform(0.8, 1.0)}]
+        elif kind == "icodes":
+            ops = [{"op": "icodes", "seed": sd, "frac": rng.choice([0.3, 0.8])}]
+        elif kind == "reverse-res":
+            ops = [{"op": "reverse-res"}]
+        elif kind == "chain-order":
+            ops = [{"op": "chain-order", "seed": sd, "mode": rng.choice(["reverse", "random"])}] + ([{"op": "icodes", "seed": sd, "frac": 0.3}] if rng.random() < 0.5 else [])
         else:
             ops = [{"op": "jitter", "seed": sd, "sigma": 0.1}, {"op": "rigid", "seed": sd + "r", "trans": [10.0, -20.0, 30.0]}, {"op": "thin-res", "seed": sd, "frac": 0.1}]
         yield {"family": "perturbed-" + kind, "file": fn, "ops": ops}
